@@ -3002,6 +3002,23 @@ const is64bit = (1 << (^uintptr(0) >> 63) / 2) == 1
 func makeInt(f flag, bits uint64, t Type) Value {
 	typ := t.common()
 	var ptr unsafe.Pointer
+	// A Value of a 1/2/4-byte integer kind keeps the value itself in ptr, sign- or
+	// zero-extended to the word (that is what Int and Uint read back), so the
+	// converted bits must be narrowed to the target width first.
+	switch Kind(typ.Kind()) {
+	case Int8:
+		bits = uint64(int64(int8(bits)))
+	case Int16:
+		bits = uint64(int64(int16(bits)))
+	case Int32:
+		bits = uint64(int64(int32(bits)))
+	case Uint8:
+		bits = uint64(uint8(bits))
+	case Uint16:
+		bits = uint64(uint16(bits))
+	case Uint32:
+		bits = uint64(uint32(bits))
+	}
 	switch typ.Size() {
 	case 1, 2, 4:
 		ptr = unsafe.Pointer(uintptr(bits))
